@@ -96,7 +96,7 @@ def generate(rng, i, tier):
         if rng.random() < 0.08:
             # one write to a member's data.csv / unmatched.csv stores only part of its bytes and fails (disk full).  The run may
             # raise, or return with the failure on record; if it returns WITHOUT any record of it, the archive must be right
-            run["spool_fault"] = {"cut": rng.choice([0.0, 0.5, 0.5, 1.0]), "nth": rng.randint(1, 4)}
+            run["spool_fault"] = {"cut": rng.choice([0.0, 0.5, 0.5, 1.0]), "nth": rng.randint(1, 3), "file": rng.choice(["data.csv", "unmatched.csv", "unmatched.csv", "printouts.txt", "vars.json", "errors.json", "meta.json"])}
         if rng.random() < 0.12:
             # a manager call on this instance failed just before (a directory that is not there, a torn json file):
             # whatever the instance keeps of that must not leak into the archive of the run
@@ -278,16 +278,17 @@ class _TornSpool:
     """Disk-full seam for the spooled result files: while active, the nth write to one of a member's result files (data.csv,
     unmatched.csv, printouts.txt, vars.json, errors.json, meta.json; opened for writing/appending) stores only `cut` of its bytes and raises ENOSPC, once."""
 
-    def __init__(self, cut, nth):
+    def __init__(self, cut, nth, basename=None):
         self.cut = cut
         self.nth = nth
+        self.names = (basename,) if basename else ("data.csv", "unmatched.csv", "printouts.txt", "vars.json", "errors.json", "meta.json")
         self.state = {"fired": 0, "writes": 0}
 
     def __enter__(self):
         import builtins
 
         self.real = real = builtins.open
-        st, cut, nth = self.state, self.cut, self.nth
+        st, cut, nth, names = self.state, self.cut, self.nth, self.names
 
         class Torn:
             def __init__(self, f):
@@ -319,7 +320,7 @@ class _TornSpool:
 
         def opener(file, mode="r", *a, **kw):
             f = real(file, mode, *a, **kw)
-            if not st["fired"] and isinstance(file, str) and os.path.basename(file) in ("data.csv", "unmatched.csv", "printouts.txt", "vars.json", "errors.json", "meta.json") and any(c in mode for c in "wax") and "b" not in mode:
+            if not st["fired"] and isinstance(file, str) and os.path.basename(file) in names and any(c in mode for c in "wax") and "b" not in mode:
                 return Torn(f)
             return f
 
@@ -397,7 +398,7 @@ def execute(sc):
             meth = run["method"]
             where = f"run {ri} ({meth}, {run['inst']} instance{', after an abandoned ' + ab['method'] if ab else ''}{', after a failed ' + fc if fc else ''})"
             sf = run.get("spool_fault") if "collect" in sc["policy"] else None
-            torn = _TornSpool(sf["cut"], sf["nth"]) if sf else None
+            torn = _TornSpool(sf["cut"], sf["nth"], sf.get("file")) if sf else None
             try:
                 if torn:
                     with torn:
